@@ -116,7 +116,8 @@ def gen(rng, kind, tier):
                 "interrupts": int(rng.integers(5, 16)), "seed": int(rng.integers(1 << 30)),
                 "opts": {"threshold": str(rng.choice(["0.5", "auto", "mean"])), "minimal_radius": float(rng.choice([0.0, 1.0])),
                          "refine": bool(rng.random() < 0.3), "modes": 0},
-                "ls_method": str(rng.choice(["structure_factor_mean", "structure_factor_maximum", "droplet_detection"]))}
+                "ls_method": str(rng.choice(["structure_factor_mean", "structure_factor_maximum", "droplet_detection"])),
+                "adaptive": bool(rng.random() < 0.5), "files": bool(rng.random() < 0.7)}
     raise ValueError(kind)
 
 
@@ -331,15 +332,40 @@ def run_solver(case, rec):
     tau = t_range / case["interrupts"]
     o = case["opts"]
     thr = float(o["threshold"]) if o["threshold"][0].isdigit() else o["threshold"]
-    dt_tr = droplets.DropletTracker(tau, threshold=thr, minimal_radius=o["minimal_radius"], refine=o["refine"])
-    ls_tr = droplets.LengthScaleTracker(tau, method=case["ls_method"])
+    scratch = Path(os.environ.get("VERIF_SCRATCH") or "/tmp")
+    h5 = str(scratch / f"c14_solver_{os.getpid()}.h5") if case.get("files") else None
+    js = str(scratch / f"c14_solver_{os.getpid()}.json") if case.get("files") else None
+    dt_tr = droplets.DropletTracker(tau, filename=h5, threshold=thr, minimal_radius=o["minimal_radius"], refine=o["refine"])
+    ls_tr = droplets.LengthScaleTracker(tau, filename=js, method=case["ls_method"])
     storage = pde.MemoryStorage()
+    kw = {"adaptive": True} if case.get("adaptive") else {}  # adaptive time stepping (the solver then reports step statistics)
     c = common.monitored(rec, "solve", eq.solve, state, t_range=t_range, dt=dt, backend="numpy",
-                         tracker=[dt_tr, storage.tracker(tau), ls_tr])
+                         tracker=[dt_tr, storage.tracker(tau), ls_tr], **kw)
     label = str(case)
+    rec.count(f"solver_runs:{'adaptive' if case.get('adaptive') else 'fixed'}|{'files' if h5 else 'no files'}")
     if not c.ok:
-        rec.harness_error(f"solver run failed: {c.exc!r}")
+        if common.raised_in_repo(c.exc):
+            # the run was aborted by one of the trackers (in handle or when writing its file at the end)
+            rec.check(False, "no-exception", f"the simulation was aborted by a tracker: {common.exc_text(c.exc)}; {label}")
+            rec.evaluated(nontrivial=False)
+        else:
+            rec.harness_error(f"solver run failed: {c.exc!r}")
         return
+    if h5:
+        back = common.monitored(rec, "from_file", droplets.EmulsionTimeCourse.from_file, h5)
+        if rec.check(back.ok, "no-exception", f"reading the tracker's file raised {back.exc!r}; {label}"):
+            rec.check(snap(back.result) == snap(dt_tr.data), "file-roundtrip",
+                      f"the file written at the end of the simulation reads back different from the recorded data; {label}")
+        data = json.loads(Path(js).read_text())
+        got_ls = list(ls_tr.length_scales)
+        same = len(data["length_scales"]) == len(got_ls) and all(
+            (a != a and b != b) or float(a) == float(b) for a, b in zip(data["length_scales"], got_ls))
+        rec.check(same, "json-file", f"JSON file {data['length_scales']} != recorded length scales {got_ls}; {label}")
+        for f_ in (h5, js):
+            try:
+                os.remove(f_)
+            except OSError:
+                pass
     rec.hit("call:DropletTracker.handle", len(dt_tr.data))
     off = common.monitored(rec, "from_storage", droplets.EmulsionTimeCourse.from_storage, storage, threshold=thr,
                            minimal_radius=o["minimal_radius"], refine=o["refine"], progress=False)
